@@ -340,16 +340,21 @@ Qed.
 
 (** * The whole span *)
 
-Definition no_end (o : op) : Prop := o <> OEnd.
+Definition is_end (o : op) : bool := match o with OEnd _ => true | _ => false end.
+Definition no_end (o : op) : Prop := is_end o = false.
 
 Lemma before_end_no_end ops : Forall no_end (before_end ops).
 Proof.
   induction ops as [|o ops IH]; cbn; [constructor|].
-  destruct o; try (constructor; [unfold no_end; discriminate | exact IH]). constructor.
+  destruct o; try (constructor; [reflexivity | exact IH]). constructor.
 Qed.
 
-Fixpoint has_end (ops : list op) : bool :=
-  match ops with [] => false | OEnd :: _ => true | _ :: r => has_end r end.
+(** The instant of the first End, if the program ends the span. *)
+Fixpoint first_end (ops : list op) : option N :=
+  match ops with [] => None | OEnd ts :: _ => Some ts | _ :: r => first_end r end.
+
+Lemma end_time_first_end ops : end_time_of ops = match first_end ops with Some ts => ts | None => 0 end.
+Proof. induction ops as [|o ops IH]; [reflexivity|]. destruct o; cbn; try exact IH; reflexivity. Qed.
 
 Lemma step_ended lim s o : m_ended s = true -> step lim s o = s.
 Proof. intro H. unfold step. now rewrite H. Qed.
@@ -357,10 +362,10 @@ Proof. intro H. unfold step. now rewrite H. Qed.
 Lemma run_ended lim ops : forall s, m_ended s = true -> fold_left (step lim) ops s = s.
 Proof. induction ops as [|o ops IH]; intros s H; cbn; [reflexivity|]. rewrite step_ended by exact H. now apply IH. Qed.
 
-Lemma step_keeps_recording lim s o : m_ended s = false -> o <> OEnd -> m_ended (step lim s o) = false.
+Lemma step_keeps_recording lim s o : m_ended s = false -> is_end o = false -> m_ended (step lim s o) = false.
 Proof.
   intros H Ho. unfold step. rewrite H.
-  destruct o; try congruence; cbn.
+  destruct o; try discriminate; cbn.
   - destruct (set_attributes lim kvs (m_attrs s) (m_dropped s)). reflexivity.
   - unfold add_event. destruct (cap_attrs _ _). destruct (eq_add _ _ _ _). cbn. exact H.
   - unfold add_event. destruct (cap_attrs _ _). destruct (eq_add _ _ _ _). cbn. exact H.
@@ -371,12 +376,37 @@ Qed.
 
 Lemma run_before_end lim ops : forall s, m_ended s = false ->
   fold_left (step lim) ops s =
-  (if has_end ops then set_ended (fold_left (step lim) (before_end ops) s)
-   else fold_left (step lim) (before_end ops) s).
+  match first_end ops with
+  | Some ts => set_ended (fold_left (step lim) (before_end ops) s) ts
+  | None => fold_left (step lim) (before_end ops) s
+  end.
 Proof.
   induction ops as [|o ops IH]; intros s H; [reflexivity|].
-  destruct o; try (cbn [fold_left before_end has_end]; apply IH; apply step_keeps_recording; [exact H | discriminate]).
-  cbn [fold_left before_end has_end]. unfold step at 2. rewrite H. now apply run_ended.
+  destruct o; try (cbn [fold_left before_end first_end]; apply IH; apply step_keeps_recording; [exact H | reflexivity]).
+  cbn [fold_left before_end first_end]. unfold step at 2. rewrite H. now apply run_ended.
+Qed.
+
+Lemma start_ops_no_end so : Forall no_end (start_ops so).
+Proof.
+  unfold start_ops. apply Forall_app. split; [|repeat constructor].
+  apply Forall_forall. intros o Ho. apply in_map_iff in Ho as ([[c t] a] & <- & _). reflexivity.
+Qed.
+
+Lemma before_end_app_no_end l ops : Forall no_end l -> before_end (l ++ ops) = l ++ before_end ops.
+Proof.
+  induction 1 as [|o l Ho _ IH]; [reflexivity|]. cbn [app]. destruct o; cbn [before_end]; try (now rewrite IH). discriminate.
+Qed.
+
+Lemma first_end_app_no_end l ops : Forall no_end l -> first_end (l ++ ops) = first_end ops.
+Proof.
+  induction 1 as [|o l Ho _ IH]; [reflexivity|]. cbn [app]. destruct o; cbn [first_end]; try exact IH. discriminate.
+Qed.
+
+Lemma validate_kind_eq k : validate_kind k = kind_of k.
+Proof.
+  unfold validate_kind, kind_of.
+  destruct (N.eqb_spec k 1), (N.eqb_spec k 2), (N.eqb_spec k 3), (N.eqb_spec k 4), (N.eqb_spec k 5);
+    cbn [orb]; destruct (N.leb_spec 1 k), (N.leb_spec k 5); cbn [andb]; try reflexivity; lia.
 Qed.
 
 Ltac finish :=
@@ -385,6 +415,7 @@ Ltac finish :=
 
 Section Span.
   Variable lim : limits.
+  Variable so : start_opts.
   Variable name0 : bytes.
 
   Definition Inv (l : list op) (s : mstate) : Prop :=
@@ -393,12 +424,13 @@ Section Span.
     m_status s = status_of l /\
     AInv lim (m_attrs s) (m_dropped s) (offers_of l) /\
     (m_events s, m_evdropped s) = bounded (lim_events lim) (events_of lim l) /\
-    (m_links s, m_lkdropped s) = bounded (lim_links lim) (links_of lim l).
+    (m_links s, m_lkdropped s) = bounded (lim_links lim) (links_of lim l) /\
+    m_meta s = (kind_of (so_kind so), so_start so, 0).
 
-  Lemma inv_init : Inv [] (init name0).
+  Lemma inv_init : Inv [] (init so name0).
   Proof.
-    unfold Inv, AInv, init. cbn [m_ended m_name m_status m_attrs m_dropped m_events m_evdropped m_links m_lkdropped].
-    repeat split; try reflexivity.
+    unfold Inv, AInv, init. cbn [m_ended m_name m_status m_attrs m_dropped m_events m_evdropped m_links m_lkdropped m_meta].
+    rewrite validate_kind_eq. repeat split; try reflexivity.
     - intro. cbn. lia.
     - unfold bounded. cbn. destruct (lim_events lim <? 0)%Z; reflexivity.
     - unfold bounded. cbn. destruct (lim_links lim <? 0)%Z; reflexivity.
@@ -433,24 +465,24 @@ Section Span.
     offers_of (l ++ [o]) = offers_of l ++ [] -> links_of lim (l ++ [o]) = links_of lim l ++ [] ->
     Inv l s -> Inv (l ++ [o]) (add_event lim s name ts attrs).
   Proof.
-    intros He Hn Hs Ho Hl (I1 & I2 & I3 & I4 & I5 & I6). unfold Inv, add_event.
+    intros He Hn Hs Ho Hl (I1 & I2 & I3 & I4 & I5 & I6 & I7). unfold Inv, add_event.
     rewrite cap_attrs_cap. unfold mk_event in He. destruct (cap (lim_evattrs lim) attrs) as [k dr].
     pose proof (eq_add_bounded (lim_events lim) (events_of lim l)
                   {| e_name := name; e_time := ts; e_attrs := k; e_dropped := dr |}) as B.
     rewrite <- I5 in B. cbn [fst snd] in B. rewrite B. rewrite <- He.
     destruct (bounded (lim_events lim) (events_of lim (l ++ [o]))) as [q d].
-    cbn [m_ended m_name m_status m_attrs m_dropped m_events m_evdropped m_links m_lkdropped].
+    cbn [m_ended m_name m_status m_attrs m_dropped m_events m_evdropped m_links m_lkdropped m_meta].
     rewrite Hn, Hs, Ho, Hl, !app_nil_r. finish.
   Qed.
 
-  Lemma inv_step l s o : o <> OEnd -> Inv l s -> Inv (l ++ [o]) (step lim s o).
+  Lemma inv_step l s o : is_end o = false -> Inv l s -> Inv (l ++ [o]) (step lim s o).
   Proof.
-    intros Hne I. pose proof I as (I1 & I2 & I3 & I4 & I5 & I6). unfold step. rewrite I1.
-    destruct o as [kvs|name ts kvs|typ msg ts kvs|ctx hts kvs|code desc|name|]; [| | | | | |congruence].
+    intros Hne I. pose proof I as (I1 & I2 & I3 & I4 & I5 & I6 & I7). unfold step. rewrite I1.
+    destruct o as [kvs|name ts kvs|typ msg ts kvs|ctx hts kvs|code desc|name|ts]; [| | | | | |discriminate].
     - (* SetAttributes *)
       pose proof (set_attributes_sim lim kvs _ _ _ I4) as A.
       destruct (set_attributes lim kvs (m_attrs s) (m_dropped s)) as [l' d']. cbn [fst snd] in A.
-      unfold Inv. cbn [m_ended m_name m_status m_attrs m_dropped m_events m_evdropped m_links m_lkdropped].
+      unfold Inv. cbn [m_ended m_name m_status m_attrs m_dropped m_events m_evdropped m_links m_lkdropped m_meta].
       rewrite name_of_snoc, status_of_snoc, offers_of_snoc, events_of_snoc, links_of_snoc, !app_nil_r.
       finish.
     - (* AddEvent *)
@@ -479,7 +511,7 @@ Section Span.
                       {| l_ctx := ctx; l_ts := hts; l_attrs := k; l_dropped := dr |}) as B.
         rewrite <- I6 in B. cbn [fst snd] in B. rewrite B.
         destruct (bounded (lim_links lim) (links_of lim l ++ _)) as [q d].
-        cbn [m_ended m_name m_status m_attrs m_dropped m_events m_evdropped m_links m_lkdropped].
+        cbn [m_ended m_name m_status m_attrs m_dropped m_events m_evdropped m_links m_lkdropped m_meta].
         finish.
       + rewrite app_nil_r. finish.
     - (* SetStatus *)
@@ -487,60 +519,62 @@ Section Span.
       rewrite name_of_snoc, status_of_snoc, offers_of_snoc, events_of_snoc, links_of_snoc, !app_nil_r.
       unfold status_step. rewrite <- I3.
       destruct (code <? fst (m_status s));
-        cbn [m_ended m_name m_status m_attrs m_dropped m_events m_evdropped m_links m_lkdropped];
+        cbn [m_ended m_name m_status m_attrs m_dropped m_events m_evdropped m_links m_lkdropped m_meta];
         finish.
     - (* SetName *)
       unfold Inv.
       rewrite name_of_snoc, status_of_snoc, offers_of_snoc, events_of_snoc, links_of_snoc, !app_nil_r.
-      cbn [m_ended m_name m_status m_attrs m_dropped m_events m_evdropped m_links m_lkdropped].
+      cbn [m_ended m_name m_status m_attrs m_dropped m_events m_evdropped m_links m_lkdropped m_meta].
       finish.
   Qed.
 
-  Lemma inv_run l : Forall no_end l -> Inv l (fold_left (step lim) l (init name0)).
+  Lemma inv_run l : Forall no_end l -> Inv l (fold_left (step lim) l (init so name0)).
   Proof.
     induction l as [|o l IH] using rev_ind; intro F; [apply inv_init|].
     rewrite fold_left_app. cbn [fold_left]. apply Forall_app in F as [F1 F2].
     apply inv_step; [inversion F2; assumption | now apply IH].
   Qed.
 
-  Lemma live_set_ended s : live (set_ended s) = live s.
-  Proof. reflexivity. Qed.
-  Lemma snapshot_set_ended s : snapshot (set_ended s) = snapshot s.
-  Proof. reflexivity. Qed.
+  (** End only marks the span ended and stores the instant. *)
+  Definition with_end (x : export) (ts : N) : export :=
+    {| x_name := x_name x; x_status := x_status x; x_attrs := x_attrs x; x_dropped := x_dropped x;
+       x_events := x_events x; x_evdropped := x_evdropped x; x_links := x_links x; x_lkdropped := x_lkdropped x;
+       x_kind := x_kind x; x_start := x_start x; x_end := ts |}.
 
-  Lemma run_model_core ops :
-    exists s, Inv (before_end ops) s /\ live (run_model lim name0 ops) = live s /\
-              snapshot (run_model lim name0 ops) = snapshot s.
-  Proof.
-    exists (fold_left (step lim) (before_end ops) (init name0)). split.
-    - apply inv_run, before_end_no_end.
-    - unfold run_model. rewrite run_before_end by reflexivity. destruct (has_end ops); split; reflexivity.
-  Qed.
+  Lemma live_set_ended s ts : live (set_ended s ts) = with_end (live s) ts.
+  Proof. reflexivity. Qed.
 
   Lemma inv_live l s : Inv l s -> live s =
     (let a := spec_attrs (lim_len lim) (lim_attrs lim) (offers_of l) in
      let e := bounded (lim_events lim) (events_of lim l) in
      let k := bounded (lim_links lim) (links_of lim l) in
      {| x_name := name_of name0 l; x_status := status_of l; x_attrs := fst a; x_dropped := snd a;
-        x_events := fst e; x_evdropped := snd e; x_links := fst k; x_lkdropped := snd k |}).
+        x_events := fst e; x_evdropped := snd e; x_links := fst k; x_lkdropped := snd k;
+        x_kind := kind_of (so_kind so); x_start := so_start so; x_end := 0 |}).
   Proof.
-    intros (I1 & I2 & I3 & [I4 _] & I5 & I6). unfold live. cbv zeta.
-    rewrite <- I4, <- I5, <- I6, I2, I3. reflexivity.
+    intros (I1 & I2 & I3 & [I4 _] & I5 & I6 & I7). unfold live. cbv zeta.
+    rewrite <- I4, <- I5, <- I6, I2, I3, I7. reflexivity.
   Qed.
 
-  (** The span read back through its accessors after any call sequence is
-      what the specification says, for all limits. *)
-  Theorem live_refines ops : live (run_model lim name0 ops) = run_spec lim name0 ops.
+  (** The span read back through its accessors after any start options and
+      any call sequence is what the specification says, for all limits. *)
+  Theorem live_refines ops : live (run_model lim so name0 ops) = run_spec lim so name0 ops.
   Proof.
-    destruct (run_model_core ops) as (s & I & L & _). rewrite L. unfold run_spec. now apply inv_live.
+    unfold run_model. rewrite run_before_end by reflexivity.
+    rewrite (first_end_app_no_end _ _ (start_ops_no_end so)), (before_end_app_no_end _ _ (start_ops_no_end so)).
+    assert (I : Inv (start_ops so ++ before_end ops)
+                    (fold_left (step lim) (start_ops so ++ before_end ops) (init so name0))).
+    { apply inv_run. apply Forall_app. split; [apply start_ops_no_end | apply before_end_no_end]. }
+    apply inv_live in I. unfold run_spec. rewrite end_time_first_end.
+    destruct (first_end ops) as [ts|]; [rewrite live_set_ended|]; rewrite I; reflexivity.
   Qed.
 
   (** snapshot() reports exactly what the accessors report. *)
   Lemma snapshot_live s : snapshot s = live s.
   Proof. unfold snapshot, live. now destruct (m_attrs s). Qed.
 
-  (** What the exporter receives is what the specification says, for all limits. *)
-  Theorem snapshot_refines ops : snapshot (run_model lim name0 ops) = run_spec lim name0 ops.
+  (** What the exporter receives is what the specification says, for all limits and start options. *)
+  Theorem snapshot_refines ops : snapshot (run_model lim so name0 ops) = run_spec lim so name0 ops.
   Proof. now rewrite snapshot_live, live_refines. Qed.
 
   (** The snapshot as it was before fix 543ed08 hid the drop counters of empty queues. *)
@@ -549,41 +583,36 @@ Section Span.
        x_events := x_events x;
        x_evdropped := match x_events x with [] => 0%nat | _ => x_evdropped x end;
        x_links := x_links x;
-       x_lkdropped := match x_links x with [] => 0%nat | _ => x_lkdropped x end |}.
+       x_lkdropped := match x_links x with [] => 0%nat | _ => x_lkdropped x end;
+       x_kind := x_kind x; x_start := x_start x; x_end := x_end x |}.
 
   Lemma snapshot_before_fix_live s : snapshot_before_fix s = hide_empty_dropped (live s).
   Proof.
-    unfold snapshot_before_fix, hide_empty_dropped, live. cbn [x_name x_status x_attrs x_dropped x_events x_evdropped x_links x_lkdropped].
+    unfold snapshot_before_fix, hide_empty_dropped, live.
+    cbn [x_name x_status x_attrs x_dropped x_events x_evdropped x_links x_lkdropped x_kind x_start x_end].
     destruct (m_attrs s); reflexivity.
   Qed.
 
   Theorem snapshot_before_fix_general ops :
-    snapshot_before_fix (run_model lim name0 ops) = hide_empty_dropped (run_spec lim name0 ops).
+    snapshot_before_fix (run_model lim so name0 ops) = hide_empty_dropped (run_spec lim so name0 ops).
   Proof. now rewrite snapshot_before_fix_live, live_refines. Qed.
 End Span.
 
-Lemma before_end_app_end ops1 ops2 : before_end (ops1 ++ OEnd :: ops2) = before_end ops1.
+Lemma before_end_app_end ops1 ts ops2 : before_end (ops1 ++ OEnd ts :: ops2) = before_end (ops1 ++ [OEnd ts]).
 Proof. induction ops1 as [|o ops1 IH]; [reflexivity|]. destruct o; cbn; try rewrite IH; reflexivity. Qed.
-Lemma has_end_app_end ops1 ops2 : has_end (ops1 ++ OEnd :: ops2) = true.
+Lemma first_end_app_end ops1 ts ops2 : first_end (ops1 ++ OEnd ts :: ops2) = first_end (ops1 ++ [OEnd ts]).
 Proof. induction ops1 as [|o ops1 IH]; [reflexivity|]. destruct o; cbn; try exact IH; reflexivity. Qed.
-Lemma before_end_idem ops : before_end (before_end ops) = before_end ops.
-Proof. induction ops as [|o ops IH]; [reflexivity|]. destruct o; cbn; try rewrite IH; reflexivity. Qed.
-Lemma has_end_before_end ops : has_end (before_end ops) = false.
-Proof. induction ops as [|o ops IH]; [reflexivity|]. destruct o; cbn; try exact IH; reflexivity. Qed.
 
-(** Calls made after End change nothing (model level, all limits). *)
-Theorem after_end_noop lim name0 ops1 ops2 :
-  run_model lim name0 (ops1 ++ OEnd :: ops2) = set_ended (run_model lim name0 (before_end ops1)) /\
-  live (run_model lim name0 (ops1 ++ OEnd :: ops2)) = live (run_model lim name0 ops1) /\
-  snapshot (run_model lim name0 (ops1 ++ OEnd :: ops2)) = snapshot (run_model lim name0 ops1).
+(** Calls made after End change nothing: the whole state (hence accessors and
+    export) is that of the program cut after its End (all limits, all start options). *)
+Theorem after_end_noop lim so name0 ops1 ts ops2 :
+  run_model lim so name0 (ops1 ++ OEnd ts :: ops2) = run_model lim so name0 (ops1 ++ [OEnd ts]).
 Proof.
   unfold run_model.
-  rewrite (run_before_end lim (ops1 ++ OEnd :: ops2)) by reflexivity.
-  rewrite has_end_app_end, before_end_app_end.
-  rewrite (run_before_end lim (before_end ops1)) by reflexivity.
-  rewrite has_end_before_end, before_end_idem.
-  rewrite (run_before_end lim ops1) by reflexivity.
-  split; [reflexivity|]. destruct (has_end ops1); split; reflexivity.
+  rewrite (run_before_end lim (start_ops so ++ ops1 ++ OEnd ts :: ops2)) by reflexivity.
+  rewrite (run_before_end lim (start_ops so ++ ops1 ++ [OEnd ts])) by reflexivity.
+  rewrite !(first_end_app_no_end _ _ (start_ops_no_end so)), !(before_end_app_no_end _ _ (start_ops_no_end so)).
+  now rewrite first_end_app_end, before_end_app_end.
 Qed.
 
 (** * Laws of the specification *)
@@ -913,11 +942,13 @@ Definition lim_ev0 : limits :=
 Definition lim_lk0 : limits :=
   {| lim_len := -1; lim_attrs := -1; lim_events := -1; lim_links := 0; lim_evattrs := -1; lim_lkattrs := -1 |}.
 
+Definition no_start : start_opts := {| so_attrs := []; so_links := []; so_start := 0; so_kind := 0 |}.
+
 Lemma snapshot_before_fix_refuted :
-  (exists lim name0 ops, x_evdropped (snapshot_before_fix (run_model lim name0 ops)) <> x_evdropped (run_spec lim name0 ops)) /\
-  (exists lim name0 ops, x_lkdropped (snapshot_before_fix (run_model lim name0 ops)) <> x_lkdropped (run_spec lim name0 ops)).
+  (exists lim so name0 ops, x_evdropped (snapshot_before_fix (run_model lim so name0 ops)) <> x_evdropped (run_spec lim so name0 ops)) /\
+  (exists lim so name0 ops, x_lkdropped (snapshot_before_fix (run_model lim so name0 ops)) <> x_lkdropped (run_spec lim so name0 ops)).
 Proof.
   split.
-  - exists lim_ev0, (str "s"), [OAddEvent (str "e") 1 []; OAddEvent (str "e") 2 []; OEnd]. vm_compute. discriminate.
-  - exists lim_lk0, (str "s"), [OAddLink 1 false []; OEnd]. vm_compute. discriminate.
+  - exists lim_ev0, no_start, (str "s"), [OAddEvent (str "e") 1 []; OAddEvent (str "e") 2 []; OEnd 0]. vm_compute. discriminate.
+  - exists lim_lk0, no_start, (str "s"), [OAddLink 1 false []; OEnd 0]. vm_compute. discriminate.
 Qed.
